@@ -123,3 +123,6 @@
 (declare-fun utf16.len ((Array (_ BitVec 64) (_ BitVec 32)) (_ BitVec 64) (_ BitVec 64)) (_ BitVec 64))
 (assert (forall ((a (Array (_ BitVec 64) (_ BitVec 32))) (o (_ BitVec 64)) (n (_ BitVec 64)))
   (! (=> (bvsle #x0000000000000000 n) (and (bvsle #x0000000000000000 (utf16.len a o n)) (bvsle (utf16.len a o n) (bvadd n n)))) :pattern ((utf16.len a o n)))))
+
+;; mstypes.FileTime.Time as an uninterpreted function of the low and high words (C19: attributes reported faithfully)
+(declare-fun filetime ((_ BitVec 64) (_ BitVec 64)) (_ BitVec 128))
